@@ -2,12 +2,15 @@
 providers, independent of earlier parses and of its position in the file.
 
 Decided: HISTORY (no process-global state written by one parse is read by a
-parse, except the listed known finding), ONSET-FROM (UTC onsets = local onset
-minus a TZOFFSETFROM-derived value; observance offset from TZOFFSETTO; RRULE
-expansion anchored in the TZOFFSETFROM offset), PROVIDERS (both providers
-implement the whole interface; same open-ended cut-off).
-Not decided: the onset rule at every instant, DST deltas, agreement of the
-dateutil and pytz conversions (numerical).
+parse, except the listed known finding), ONSET-MODEL (Timezone.get_transitions
+and PYTZ.create_timezone interpreted on abstract VTIMEZONEs - symbolic onsets,
+concrete whole-minute offsets, DTSTART / RDATE / RRULE - against the RFC 5545
+3.6.5 oracle: sa/tzmodel.py), PROVIDERS (both providers implement the whole
+interface; same open-ended cut-off), OWN-DEFINITION (a custom TZID is served
+from the calendar's own VTIMEZONE).
+Not decided: what dateutil/pytz/zoneinfo do with the transitions they are given
+(the offset reported at every instant), dateutil's expansion of an RRULE, the
+zoneinfo provider's path through dateutil.tz.tzical, offsets with seconds.
 """
 import ast
 
@@ -21,10 +24,12 @@ def run(ctx):
     m = ctx.model
     ctx.explanation = (
         "global write/read effects of the Component.from_ical cone (stores "
-        "through module singletons, propagated over the call graph); def-use "
-        "expansion of the onset computation in Timezone._extract_offsets / "
-        "get_transitions; interface completeness of the two TZProvider "
-        "implementations and their cut-off constants.")
+        "through module singletons, propagated over the call graph); abstract "
+        "interpretation (E7, sa.tzmodel) of Timezone.get_transitions and "
+        "PYTZ.create_timezone on abstract VTIMEZONEs with symbolic onsets against "
+        "the RFC 5545 3.6.5 oracle; interface completeness of the two TZProvider "
+        "implementations and their cut-off constants; interpretation of "
+        "TZP.cache_timezone_component on custom ids.")
     _history(ctx)
     _onset(ctx)
     _providers(ctx)
